@@ -34,9 +34,9 @@ CONSTANTS N,        \* number of observations
 \* alpha = aN / 2^aE as <<aN, aE>>; the .cfg files substitute one of these for Alphas
 \* (the .cfg syntax has neither tuples nor negative numbers, hence these definitions)
 ValsQuick      == {-2, 0, 1, 3}
-ValsThorough   == {-3, -1, 0, 2, 5}
+ValsThorough   == {-3, 0, 2, 5}
 AlphasQuick    == {<<1, 3>>, <<3, 0>>}
-AlphasThorough == {<<1, 3>>, <<1, 1>>, <<5, 1>>, <<100, 0>>}
+AlphasThorough == {<<1, 3>>, <<100, 0>>}
 
 VARIABLES x, y, al, phase, kind, W, B, Yhat
 vars == <<x, y, al, phase, kind, W, B, Yhat>>
@@ -88,11 +88,12 @@ Spec == Init /\ [][Next]_vars
 
 \* the contract, as the trace specification applies it (f64 tolerances)
 Accepts(w, b, yh) ==
-    LET R == LsResid(Xm, y, <<w>>, b, S) M == LsMag(Xm, y, <<w>>, b, S) Q2 == LsQ2(Xm) IN
+    LET R == LsResid(Xm, y, <<w>>, b, S) M == LsMag(Xm, y, <<w>>, b, S) Q2 == LsQ2(Xm)
+        NM == LsNormMag(LsQ2(Xm), LsMag(Xm, y, <<w>>, b, S)) IN
     /\ PredictIdentity(Xm, <<w>>, b, yh, M, Q2, "f64")
-    /\ CASE kind = "ols" -> OlsNormalEq(Xm, R, M, Q2, "f64") /\ OlsSumZero(Xm, R, M, Q2, "f64")
-         [] kind = "raw" -> RidgeRawIntercept(b) /\ RidgeRawGradient(Xm, <<w>>, R, M, Q2, al[1], al[2], "f64")
-         [] kind = "std" -> OlsSumZero(Xm, R, M, Q2, "f64") /\ RidgeStdGradient(Xm, <<w>>, R, M, Q2, al[1], al[2], "f64")
+    /\ CASE kind = "ols" -> OlsNormalEq(Xm, R, NM, Q2, "f64") /\ OlsSumZero(Xm, R, NM, Q2, "f64")
+         [] kind = "raw" -> RidgeRawIntercept(b) /\ RidgeRawGradient(Xm, <<w>>, R, NM, Q2, al[1], al[2], "f64")
+         [] kind = "std" -> OlsSumZero(Xm, R, NM, Q2, "f64") /\ RidgeStdGradient(Xm, <<w>>, R, NM, Q2, al[1], al[2], "f64")
 
 Sound == phase = "done" => Accepts(W, B, Yhat)
 Sharp == phase = "done" =>
@@ -101,6 +102,7 @@ Sharp == phase = "done" =>
             /\ ~Accepts(W, B, [Yhat EXCEPT ![1] = @ + Delta])
 \* the f32 tolerance is wider, never narrower
 Sound32 == phase = "done" =>
-    LET R == LsResid(Xm, y, <<W>>, B, S) M == LsMag(Xm, y, <<W>>, B, S) Q2 == LsQ2(Xm) IN
-    kind = "ols" => OlsNormalEq(Xm, R, M, Q2, "f32") /\ OlsSumZero(Xm, R, M, Q2, "f32")
+    LET R == LsResid(Xm, y, <<W>>, B, S) Q2 == LsQ2(Xm)
+        NM == LsNormMag(LsQ2(Xm), LsMag(Xm, y, <<W>>, B, S)) IN
+    kind = "ols" => OlsNormalEq(Xm, R, NM, Q2, "f32") /\ OlsSumZero(Xm, R, NM, Q2, "f32")
 =============================================================================
